@@ -25,7 +25,8 @@ RULE = ("cases = (decimal_places 0..9, line ending, axis labels (default, relabe
         "other builders with a different configuration created meanwhile; an "
         "axis relabelled in the middle of the history (rename_axis / "
         "format.set_axis_label); the conversion helpers to_absolute / "
-        "to_absolute_list / to_distance_mode compared with their documented "
+        "to_absolute_list / to_distance_mode; optionally axes limits in force so "
+        "that calls are rejected mid-history; helpers compared with their documented "
         "formula and required to change nothing; the "
         "eight tracer shapes built valid from the "
         "current position); non-trivial = history with a relative move after "
@@ -209,6 +210,11 @@ def classify(ops):
 def run_case(case, classes=None):
     classes = set() if classes is None else classes
     s = Session(dp=case["dp"], eol=case["eol"], labels=case.get("labels"))
+    if case.get("box"):
+        # axes limits in force: some calls of the history are then rejected, and
+        # a rejected call must leave machine and builder in agreement as well
+        s.g.set_bounds("axes", case["box"][0], case["box"][1])
+        classes.add("axes_bounds_set")
     check = make_checker(s, classes)
     hist.run_ops(s.g, case["ops"], check, make_before(s, classes))
     return classes
@@ -225,6 +231,9 @@ def strategy(max_ops):
         "eol": st.sampled_from(["lf", "crlf"]),
         "labels": st.sampled_from([None, None, None, {"X": "A", "Y": "B", "Z": "C"},
                                    {"X": "Y", "Y": "X"}, {"Z": "W"}]),
+        "box": st.sampled_from([None, None, None, [[-20.0, -20.0, -20.0], [20.0, 20.0, 20.0]],
+                                [[0.0, 0.0, 0.0], [100.0, 100.0, 50.0]],
+                                [[-1000.0, -1000.0, -5.0], [1000.0, 1000.0, 5.0]]]),
         "ops": st.tuples(
             st.sampled_from([[], [], [{"op": "set_distance_mode", "mode": "relative"}]]),
             st.lists(hist.motion_op_strategy(), min_size=1, max_size=max_ops)
